@@ -41,6 +41,8 @@ def obligations(tier):
     obs = [
         Ob("record_layout", "E1", "h_record", {}, 120, "part,size in [0,2^32-1], caches 0..16", weight=5),
         Ob("update_flow", "E1", "h_flow", {}, 180, "info addr, part addr, size in [0,2^32-1], caches 0..16; files through stubs", weight=10),
+        Ob("update_flow_twice_same_path", "E1", "h_twice", {}, 300, "two consecutive updates of ONE path whose size changed in between (both sizes symbolic): the second record carries the second size", weight=20),
+        Ob("update_twice_memoisation", "E2", "k_twice", {}, 300, "same history interpreted by kernsym, which honours functools.lru_cache (CrossHair bypasses it): second record carries the second size", weight=5),
         Ob("update_flow_missing_file", "E1", "h_missing", {}, 60, "absent input file -> GeneratorError, nothing written", weight=2),
         Ob("stub_validation", "V", "v_intelhex", {"tier": tier}, 300, "real intelhex + independent reader at boundary addresses/sizes", twin=False, weight=8),
     ]
@@ -158,6 +160,113 @@ def h_flow(exclude=()):
     return harness
 
 
+def h_twice(exclude=()):
+    CI, stubs = _env()
+    from vlib import chx
+
+    real_os = os
+
+    def harness():
+        info = chx.sym_int("info", 0, U32)
+        part = chx.sym_int("part", 0, U32)
+        s1 = chx.sym_int("size1", 0, U32)
+        s2 = chx.sym_int("size2", 0, U32)
+        n = chx.sym_int("n", 0, 2)
+        sizes = [("in.suit", s1)]
+        CI.os = _OsProxy(real_os, sizes)
+        stubs.HexRecorder.LOG = []
+        CI.ImageCreator.create_files_for_update("in.suit", "storage.hex", "dfu.hex", info, part, n)
+        sizes[0] = ("in.suit", s2)
+        CI.ImageCreator.create_files_for_update("in.suit", "storage.hex", "dfu.hex", info, part, n)
+        w = [e for e in stubs.HexRecorder.LOG if e[0] == "write"]
+        ok = len(w) == 2 and w[0][2][0][1] == ref_record(part, s1, n) and w[1][2][0][1] == ref_record(part, s2, n)
+        return chx.conclude(ok, info=info, part=part, size1=s1, size2=s2, n=n)
+
+    return harness
+
+
+def k_twice(exclude=()):
+    import time
+
+    import z3
+
+    from vlib import kernsym as K
+    from vlib import ksmodels as KM
+    from vlib import repoenv
+    from vlib.ksvalues import Rope, SInt
+    from vlib.repoenv import REPO
+
+    repoenv.add_repo_to_path()
+    import suit_generator.cmd_image as CI
+
+    t0 = time.time()
+    info, part, s1, s2 = z3.Ints("info part size1 size2")
+    enc = set()
+
+    def run(ctx):
+        for v in (info, part, s1, s2):
+            ctx.assume(z3.And(v >= 0, v <= U32))
+        sizes = [SInt(s1), SInt(s2)]
+        calls = []
+
+        def getsize(it, args, kwargs):
+            calls.append(args[0])
+            return sizes[min(len(calls), 2) - 1]
+
+        def b2h(it, args, kwargs):
+            ctx.log.append(("bin2hex", args[0], args[1], args[2]))
+            return 0
+
+        models = dict(K.BASE_MODELS)
+        models[os.path.getsize] = getsize
+        models[CI.IntelHex] = KM.make_hex_model()
+        models[CI.bin2hex] = b2h
+        models[CI.struct.Struct] = KM.make_struct_model()
+        it = K.Interp(ctx, [REPO], models=models)
+        for _ in range(2):
+            it.call_function(CI.ImageCreator.create_files_for_update, ["in.suit", "s.hex", "d.hex", SInt(info), SInt(part), 1], {}, None)
+        enc.update(it.encoded)
+        return None
+
+    paths = K.explore(run, modules=[CI])
+    vpp = []
+    for p in paths:
+        if p.outcome != "ret":
+            vpp.append((p, [(f"no exception ({type(p.value).__name__})", z3.BoolVal(False))]))
+            continue
+        w = [e for e in p.log if e[0] == "hexwrite"]
+        vcs = [("two storage files written", z3.BoolVal(len(w) == 2 and all(len(x[2]) == 1 for x in w)))]
+        if len(w) == 2:
+            for i, sz in enumerate((s1, s2)):
+                a, rope = w[i][2][0]
+                segs = Rope.of(rope).segs
+                # magic(4) regions(4) address(4) size(4) + one zeroed cache entry (8): fields are little-endian ints
+                flat = [sg for sg in segs]
+                ok = len(flat) >= 4 and all(sg.kind in ("int", "const") for sg in flat)
+                vcs.append((f"call {i + 1}: record fields", z3.BoolVal(ok)))
+                vals = []
+                for sg in flat:
+                    if sg.kind == "int":
+                        vals.append(sg.a)
+                    else:
+                        for j in range(0, len(sg.a), 4):
+                            vals.append(z3.IntVal(int.from_bytes(sg.a[j : j + 4], "little")))
+                if len(vals) >= 4:
+                    vcs.append((f"call {i + 1}: magic", vals[0] == 0x55AA55AA))
+                    vcs.append((f"call {i + 1}: one region", vals[1] == 1))
+                    vcs.append((f"call {i + 1}: partition address", vals[2] == part))
+                    vcs.append((f"call {i + 1}: size of the file at the time of the call", vals[3] == sz))
+                    vcs.append((f"call {i + 1}: placed at the info address", a == info))
+        vpp.append((p, vcs))
+    from props.c10 import _finish, _model_int
+
+    res = _finish(K, vpp, paths, t0, ["two calls, sizes size1 then size2"], lambda p, m: {"info": _model_int(m, info), "part": _model_int(m, part), "size1": _model_int(m, s1, 1), "size2": _model_int(m, s2, 2), "n": 1}, small=(s1, s2))
+    res["functions"] = sorted(enc)
+    if res["verdict"] == "CONFIRMED" and not any(p.outcome == "ret" for p in paths):
+        res["verdict"] = "VACUOUS"
+    return res
+
+
 def h_missing(exclude=()):
     CI, stubs = _env()
     from vlib import chx
@@ -254,6 +363,21 @@ def replay(obligation, params, cex):
     d = tempfile.mkdtemp(prefix="verif-c16r-")
     try:
         fin = os.path.join(d, "in.suit")
+        if obligation in ("update_flow_twice_same_path", "update_twice_memoisation"):
+            s1, s2 = min(cex.get("size1", 1), 1 << 20), min(cex.get("size2", 2), 1 << 20)
+            if s1 == s2:
+                s2 = s1 + 1
+            sh, dh = os.path.join(d, "s.hex"), os.path.join(d, "d.hex")
+            for sz in (s1, s2):
+                open(fin, "wb").write(b"\x5a" * sz)
+                try:
+                    CI.ImageCreator.create_files_for_update(fin, sh, dh, info, part, n)
+                except Exception as e:  # noqa
+                    return dict(reproduced=True, detail=f"raises {type(e).__name__}: {e}")
+            mem = read_hex(open(sh).read())
+            rec = ref_record(part, s2, n)
+            ok = mem == {info + i: rec[i] for i in range(len(rec))}
+            return dict(reproduced=not ok, detail="second record does not carry the second size" if not ok else "second record correct")
         if obligation == "update_flow_missing_file":
             try:
                 CI.ImageCreator.create_files_for_update(fin, os.path.join(d, "s.hex"), os.path.join(d, "d.hex"), info, part, n)
@@ -291,6 +415,26 @@ def replay(obligation, params, cex):
             exp = {part + i: content[i] for i in range(size)}
             if mem != exp:
                 return dict(reproduced=True, detail="DFU partition hex differs from the envelope file bytes")
+        # the solver's values did not fail concretely: the symbolic failure may be structural (e.g. the library seam is
+        # bypassed for some sizes); deterministic search over boundary sizes / unaligned addresses of the same call
+        for sz in (0, 1, 17, 0xFFFF, 0x10000, 0x10001, 0x20005):
+            for pa in (part, 0x0E100000, 0x0E0FFFF8, 0x0E100004, 0x00FFFFFF, 0xFFF8):
+                if pa + sz > 2**32:
+                    continue
+                data = bytes((i * 11 + 5) & 0xFF for i in range(sz))
+                open(fin, "wb").write(data)
+                for f in (sh, dh):
+                    if os.path.exists(f):
+                        os.remove(f)
+                try:
+                    CI.ImageCreator.create_files_for_update(fin, sh, dh, info, pa, n)
+                    m1 = read_hex(open(sh).read())
+                    m2 = read_hex(open(dh).read())
+                except Exception as e:  # noqa
+                    return dict(reproduced=True, detail=f"size {sz} at {pa:#x}: {type(e).__name__}: {e}")
+                rec = ref_record(pa, sz, n)
+                if m1 != {info + i: rec[i] for i in range(len(rec))} or m2 != {pa + i: data[i] for i in range(sz)}:
+                    return dict(reproduced=True, detail=f"size {sz} at partition address {pa:#x}: hex files differ from the reference")
         return dict(reproduced=False, detail="real code agrees with the reference")
     finally:
         import shutil
